@@ -350,6 +350,13 @@ pub fn gen_track_cfg(r: &mut Rng, o: &GenOpts, kinds: &[Kind]) -> TrackCfg {
         1 => 128_000,
         _ => r.next_u32(),
     };
+    // one configuration in eight is exactly what the library's `From<…Config>` shortcuts give
+    // (mux::to_track_config then goes through them)
+    let (track_type, timescale, language) = if r.chance(1, 8) {
+        (kind.natural_track_type(), 1000, String::from("und"))
+    } else {
+        (track_type, timescale, language)
+    };
     TrackCfg {
         kind,
         track_type,
@@ -374,6 +381,9 @@ enum SizeLaw {
     TinyMix,
     Upto4k,
     WithBig,
+    /// 0.7 - 1.6 MB each: with durations well below a second a single chunk grows past
+    /// 4, 8, 16 MiB ("fat chunk" histories only)
+    Fat,
 }
 #[derive(Clone, Copy, Debug)]
 enum DurLaw {
@@ -490,6 +500,7 @@ fn gen_sample(r: &mut Rng, l: &mut TrackLaws, tag: u32, hostile: bool) -> Sample
         }
         SizeLaw::TinyMix => *r.pick(&[0u32, 0, 1, 1, 2, 3, 5, 8, 13]),
         SizeLaw::Upto4k => r.below(4097) as u32,
+        SizeLaw::Fat => 700_000 + r.below(900_000) as u32,
         SizeLaw::WithBig => {
             if r.chance(1, 6) {
                 65_536 + r.below(1_000_000 - 65_536) as u32
@@ -647,6 +658,16 @@ pub fn gen_mux(r: &mut Rng, o: &GenOpts) -> MuxScenario {
     };
     let late_tracks = r.chance(1, 5); // add some tracks after samples were already written
     let io = IoKnobs::gen(r);
+    // "fat chunk" histories (1 in 1500 where large samples are allowed): one track collects
+    // megabyte samples with durations far below a second, so that one chunk grows to 5 - 40 MB
+    // while it is still open, and the other tracks - one sample per chunk - reach the sink in
+    // between. Nothing in the small histories holds more than 3 MiB in an open chunk.
+    let fat = o.big_samples && !o.hostile && r.chance(1, 1500);
+    let (ntracks, nops, interleave, late_tracks, io) = if fat {
+        (2 + r.below(2) as u32, 10 + r.below(30) as u32, if r.chance(1, 2) { Interleave::RoundRobin } else { Interleave::Random }, false, IoKnobs::plain())
+    } else {
+        (ntracks, nops, interleave, late_tracks, io)
+    };
 
     // ---- history
     let mut ops = Vec::new();
@@ -671,6 +692,19 @@ pub fn gen_mux(r: &mut Rng, o: &GenOpts) -> MuxScenario {
     let mut burst_left = 0u32;
     let mut burst_track = 1u32;
     let mut big_budget: u64 = 3 << 20; // total bytes of large samples per history
+    if fat {
+        big_budget = 64 << 20;
+        let fat_track = r.usize_below(laws.len());
+        for (i, l) in laws.iter_mut().enumerate() {
+            if i == fat_track {
+                l.size = SizeLaw::Fat;
+                l.dur = if r.chance(1, 4) { DurLaw::Zero } else { DurLaw::LtTimescale };
+            } else {
+                l.size = SizeLaw::Upto4k;
+                l.dur = if r.chance(3, 4) { DurLaw::GeTimescale } else { DurLaw::LtTimescale };
+            }
+        }
+    }
     for i in 0..nops {
         if added < ntracks && r.chance(1, 4) {
             add(r, &mut ops, &mut laws);
